@@ -5,6 +5,7 @@ use crate::refmodel::isa;
 use serde_json::Value;
 
 pub mod c01;
+pub mod c02;
 pub mod c03;
 pub mod c04;
 pub mod c05;
@@ -16,6 +17,7 @@ pub fn run(ctx: &Ctx) -> i32 {
     fw::start_watchdog(&ctx.prop, match ctx.tier { fw::Tier::Quick => 1500, fw::Tier::Thorough => 6 * 3600 });
     match ctx.prop.as_str() {
         "C01" => c01::run(ctx),
+        "C02" => c02::run(ctx),
         "C03" => c03::run(ctx),
         "C04" => c04::run(ctx),
         "C05" => c05::run(ctx),
@@ -34,6 +36,7 @@ pub fn replay(ctx: &Ctx, v: &Value) -> i32 {
     let case = &v["case"];
     match ctx.prop.as_str() {
         "C01" => c01::replay(ctx, case),
+        "C02" => c02::replay(ctx, case),
         "C03" => c03::replay(ctx, case),
         "C04" => c04::replay(ctx, case),
         "C05" => c05::replay(ctx, case),
